@@ -91,6 +91,7 @@ func runC12(c c12Case) (*ev.Violation, string) {
 	}
 	var blk = (*sim.MsgSpec)(nil)
 	_ = blk
+	storeBefore := r.Me.Sto.NLog()
 	mp, wp := r.DeliverRaw(content, blockOf(sp))
 	if mp != "" {
 		return viol("panic-in-main-loop-step", "main loop step panicked on %d content bytes: %s", len(content), mp), class
@@ -112,6 +113,19 @@ func runC12(c c12Case) (*ev.Violation, string) {
 		if r.Me.H() != h0+1 {
 			return viol("node-ignores-sync-after-input", "after the input the out-of-committee node at height %d did not follow UpdateState to height %d", h0, h0+1), class
 		}
+	}
+	// a careless consumer (approves anything, even a block of the wrong height) that let the hostile proposal in has itself to
+	// blame for what the node does with it; such cases are judged for crashes only (above), not for "still commits a valid round"
+	adopted := func() bool {
+		for _, e := range r.Me.Sto.Log[storeBefore:] {
+			if e.Kind == "PP" && e.Stored && e.Sender != string(r.Me.ID) {
+				return true
+			}
+		}
+		return false
+	}
+	if r.Me.BU.AcceptAll && adopted() {
+		return nil, class + ":careless-consumer-adopted-the-input"
 	}
 	// afterwards the node still commits a scripted round, reacts to an election, and to UpdateState
 	hBefore := r.Me.H()
